@@ -37,6 +37,18 @@ def scrapeList (m : TMap) : List Nat → Except Panic (List (Nat × Nat × Nat))
     let r ← scrapeList m t
     pure ((h, c.1, c.2) :: r)
 
+/-- `BTreeMap::insert` on the sorted association list of a `BTreeMap<InfoHash, _>` -/
+def btreeInsert {α : Type} (k : Nat) (v : α) : List (Nat × α) → List (Nat × α)
+  | [] => [(k, v)]
+  | (k', v') :: t =>
+    if k = k' then (k, v) :: t
+    else if k < k' then (k, v) :: (k', v') :: t
+    else (k', v') :: btreeInsert k v t
+
+/-- the `files` map of an HTTP scrape reply: the taken (hash, counts) inserted one by one -/
+def httpScrapeFiles (l : List (Nat × Nat × Nat)) : List (Nat × Nat × Nat) :=
+  l.foldl (fun acc x => btreeInsert x.1 x.2 acc) []
+
 def step (cfg : StoreCfg) (s : TState) : Op → Except Panic (TState × Out)
   | .ann v6 h key st pid dl n o1 o2 =>
     if v6 then do
